@@ -193,4 +193,94 @@ Section Mid.
         destruct (iv_key _ _ _ _ _ _ _ Hi n s' name s Hs') as [X _]; [exists r; split; assumption|exact Ek|].
         contradiction.
   Qed.
+
+  (* the state after the observe-file part of a registration, before the counter line is written *)
+  Lemma ps_mid_swap_cnt : forall m m' A calls1 name v G G',
+    inv m A G ->
+    inv m' (ps_abs_calls (calls1 ++ [CCntTrack name v]) A) G' ->
+    Forall (ps_call_wf (psc_la c) (psc_lt c)) calls1 ->
+    ab_cnt (ps_abs_calls calls1 A) = ab_cnt A ->
+    invw m' (ps_abs_calls calls1 A) G.
+  Proof.
+    intros m m' A calls1 name v G G' Hi Hfin Hcw Hcnt.
+    pose proof (ps_inv_invw (fun _ _ => 0) app req c m0 _ _ _ Hfin) as Hw.
+    pose proof (ps_inv_invw (fun _ _ => 0) app req c m0 _ _ _ Hi) as Hw0.
+    rewrite ps_abs_calls_app in Hw. cbn [ps_abs_calls] in Hw.
+    apply (ps_invw_swap m' _ G' (ps_abs_calls calls1 A) G Hw); try reflexivity.
+    - apply (ps_abs_calls_wf (fun _ _ => 0) c); [apply (iv_wf _ _ _ _ _ _ _ Hi)|exact Hcw].
+    - rewrite Hcnt. apply (iv_cnt1 _ _ _ _ _ _ _ Hi).
+    - rewrite Hcnt. apply (iw_sent _ _ _ _ _ _ _ Hw0).
+  Qed.
+
+  (* C17: in the middle of any event, after any number j of its updater calls, the files contain
+     the memory state after the last completed updater *)
+  Theorem ps_mid_invw : forall e m A G j,
+    inv m A G -> ps_evt_ok app req c e m -> (j <= length (ps_ev_calls alloc c e m))%nat ->
+    invw (ps_mem_at e m j) (ps_abs_calls (firstn j (ps_ev_calls alloc c e m)) A) (ps_ghost_at e m G j).
+  Proof.
+    intros e m A G j Hi Hok Hj.
+    destruct j as [|j']; [cbn [firstn ps_abs_calls ps_mem_at ps_ghost_at];
+                          apply (ps_inv_invw (fun _ _ => 0)); exact Hi|].
+    destruct (inv_event e m A G Hi Hok) as [Hcw Hfin].
+    (* the complete event *)
+    assert (Hall : S j' = length (ps_ev_calls alloc c e m) ->
+                   ps_mem_at e m (S j') = fst (ps_ev_out alloc e m) ->
+                   invw (ps_mem_at e m (S j'))
+                        (ps_abs_calls (firstn (S j') (ps_ev_calls alloc c e m)) A) (ps_ghost_at e m G (S j'))).
+    { intros El Em. rewrite Em, El, firstn_all. unfold ps_ghost_at. rewrite <- El.
+      replace (match e with PsEvDel _ => ps_ghost alloc e m G
+               | _ => if (S j' <=? S j')%nat then ps_ghost alloc e m G else G end)
+        with (ps_ghost alloc e m G) by (rewrite Nat.leb_refl; destruct e; reflexivity).
+      apply (ps_inv_invw (fun _ _ => 0)). exact Hfin. }
+    destruct e; cbn [ps_evt_ok] in Hok; try contradiction.
+    - (* put: at most one call *)
+      apply Hall; [|reflexivity]. cbn [ps_ev_calls] in *. destruct (ps_find name m); cbn [length] in *; [lia|].
+      destruct observable; cbn [length] in *; lia.
+    - (* delete *)
+      cbn [ps_mem_at ps_ghost_at ps_ev_out]. cbn [ps_ev_calls] in Hj.
+      destruct (ps_find name m) as [r|] eqn:Hf; [|cbn [length] in Hj; lia].
+      cbn [fst]. apply (ps_mid_del name m A G r (S j') Hi); [cbn [ps_evt_ok]; rewrite Hf; exact Hok|exact Hf].
+    - (* register *)
+      cbn [ps_ev_calls] in Hj, Hcw, Hfin |- *. cbn [ps_ev_out] in Hfin.
+      destruct (ps_find name m) as [r|] eqn:Hf; [|cbn [length] in Hj; lia].
+      destruct (psr_observable r) eqn:Hobs; cbn [negb] in *; [|cbn [length] in Hj; lia].
+      destruct (ps_find_tok tuple token (psr_subs r)) as [s0|] eqn:Et; [cbn [length] in Hj; lia|].
+      destruct (ps_find_ck tuple ck (psr_subs r)) as [o|] eqn:Ec; cbn [List.app length] in *.
+      + (* replace: 3 calls *)
+        destruct j' as [|[|j'']]; [| |].
+        * (* the old observer is gone *)
+          cbn [firstn ps_abs_calls ps_mem_at ps_ghost_at ps_ev_calls]. rewrite Hf, Hobs, Et, Ec. cbn [negb List.app length Nat.leb].
+          apply (ps_inv_invw (fun _ _ => 0)).
+          apply (ps_inv_drop app req c m0 name m A G r o Hi Hf Hobs).
+          apply (ps_find_ck_some _ _ _ _ Ec).
+        * (* the new one is in the observe file, the counter line is not written yet *)
+          cbn [firstn ps_mem_at ps_ghost_at ps_ev_calls ps_ev_out]. rewrite Hf, Hobs, Et, Ec.
+          cbn [negb List.app length Nat.leb fst].
+          apply (ps_mid_swap_cnt m _ A
+                   [CObsDeleted (pss_key o); CObsAdded (ps_obs_of c (ps_reg_new alloc name tuple token ck pkt r m))]
+                   name (psr_observe r) G _ Hi Hfin).
+          -- inversion Hcw as [|? ? H1 H2]; subst. inversion H2; subst. constructor; [assumption|constructor; [assumption|constructor]].
+          -- reflexivity.
+        * cbn [ps_ev_calls] in Hall. rewrite Hf, Hobs, Et, Ec in Hall. cbn [negb List.app length] in Hall.
+          apply Hall; [lia|]. cbn [ps_mem_at ps_ev_out]. rewrite Hf, Et, Ec, Hobs. reflexivity.
+      + (* new: 2 calls *)
+        destruct j' as [|j''].
+        * cbn [firstn ps_mem_at ps_ghost_at ps_ev_calls ps_ev_out]. rewrite Hf, Hobs, Et, Ec.
+          cbn [negb List.app length Nat.leb fst].
+          apply (ps_mid_swap_cnt m _ A
+                   [CObsAdded (ps_obs_of c (ps_reg_new alloc name tuple token ck pkt r m))]
+                   name (psr_observe r) G _ Hi Hfin).
+          -- inversion Hcw; subst. constructor; [assumption|constructor].
+          -- reflexivity.
+        * cbn [ps_ev_calls] in Hall. rewrite Hf, Hobs, Et, Ec in Hall. cbn [negb List.app length] in Hall.
+          apply Hall; [lia|]. cbn [ps_mem_at ps_ev_out]. rewrite Hf, Et, Ec, Hobs. destruct j''; reflexivity.
+    - (* cancel: at most one call *)
+      apply Hall; [|reflexivity]. cbn [ps_ev_calls] in *. destruct (ps_find name m) as [r|]; cbn [length] in *; [|lia].
+      destruct (negb (psr_observable r)); cbn [length] in *; [lia|].
+      destruct (ps_cancel_hit tuple token ck r); cbn [length] in *; lia.
+    - (* notify: at most one call *)
+      apply Hall; [|reflexivity]. cbn [ps_ev_calls] in *. destruct (ps_find name m) as [r|]; cbn [length] in *; [|lia].
+      destruct (psr_observable r); cbn [length] in *; [|lia]. destruct (psr_subs r); cbn [length] in *; [lia|].
+      destruct (ps_next_observe (psr_observe r) mod psc_freq c =? 0); cbn [length] in *; lia.
+  Qed.
 End Mid.
